@@ -57,7 +57,7 @@ func run(b *harness.B) {
 	if b.Batch == 0 {
 		fixedCases(r)
 	}
-	budget := int64(b.Pick(1_000_000, 16_000_000))
+	budget := int64(b.Pick(800_000, 10_000_000))
 	netRng := b.SubRng("netgen")
 	for g := 0; r.steps < budget; g++ {
 		span := spans[g%len(spans)]
@@ -111,7 +111,7 @@ func main() {
 			if t == "quick" {
 				return 6 * time.Minute
 			}
-			return 40 * time.Minute
+			return 90 * time.Minute
 		},
 		MinEvals:    1_000_000,
 		MinDistinct: 1000,
